@@ -1,6 +1,7 @@
 """C03 — blocks of unknown type survive load and save untouched (DESIGN §5 C03)."""
 from facts import is_node, walk, where, show, AnalysisBroken
 import flow
+import re
 import versions
 
 NIF = "nifly::NifFile"
@@ -211,6 +212,28 @@ class Unguarded:
         return False
 
 
+def _unknown_ctor_sizes(F, fn, sp, depth=0):
+    """(data resized to the size argument, blockSize set from it) for a NiUnknown constructor, following a delegating
+    constructor call `: NiUnknown(size)` whose argument is the size parameter"""
+    body = fn.get("body") or {}
+    resized = any(n["k"] == "Call" and n.get("short") == "resize" and show(n.get("recv")) == "data" and
+                  n.get("args") and show(n["args"][0]) == sp for n in walk(body))
+    sized = any(n["k"] == "Assign" and show(n["l"]) == "blockSize" and show(n["r"]) == sp for n in walk(body))
+    sized = sized or any(i.get("field") == "blockSize" and is_node(i.get("e")) and show(i["e"]) == sp for i in fn.get("inits", []))
+    for i in fn.get("inits", []):
+        e = i.get("e")
+        if i.get("field") or i.get("base") or not is_node(e) or e["k"] != "Construct" or depth > 2:
+            continue
+        tgt = F.fns.get(e.get("ctor"))
+        if tgt is None or tgt.get("cls") != fn.get("cls"):
+            continue
+        for ai, a in enumerate(e.get("args", [])):
+            if show(a) == sp and ai < len(tgt.get("params", [])):
+                r2, s2 = _unknown_ctor_sizes(F, tgt, tgt["params"][ai]["name"], depth + 1)
+                resized, sized = resized or r2, sized or s2
+    return resized, sized
+
+
 def run(F, chk):
     R1 = chk.rule("R3.1", "on every call path from NifFile::Load / NifFile::Save to a NiHeader primitive that deletes, reorders or "
                           "replaces blocks or clears the string table, some frame is guarded by hasUnknown==false (or by a "
@@ -332,7 +355,27 @@ def run(F, chk):
             path = " > ".join("%s@%s" % (f["name"].split("::")[-1], (n.get("loc") or "").split(":")[0]) for f, n in ch)
             chk.violation("R3.2", "C03/R3.2:%s" % fn["name"].split("<")[0], where(ch[-1][0], ch[-1][1]),
                           "public %s reaches a block reorder / bulk prune with no hasUnknown guard: %s" % (fn["name"], path))
-    chk.floor(R2, 4)
+    # member templates: the instantiations present in the library were analysed above; the pattern stands for every other
+    # instantiation a caller may make, with its dependent calls resolved by name
+    bulk_names = {F.fns[f]["short"] for f in bulk}
+    for fn in sorted(F.fns.values(), key=lambda f: f["id"]):
+        if fn.get("cls") != NIF or fn.get("access") != "public" or fn.get("tmpl") != "pattern" or not fn.get("body"):
+            continue
+        dep = [n for n in walk(fn["body"]) if n["k"] == "Call" and not n.get("fid") and is_node(n.get("callee")) and
+               any(re.search(r"\b%s\b" % re.escape(b), show(n["callee"])) for b in bulk_names)]
+        if not dep:
+            continue
+        ids_ = {id(n) for n in dep}
+        colp = flow.Collect(F, fn, lambda n: id(n) in ids_)
+        colp.run()
+        for n, sts in colp.by_node():
+            ok = all(st is None or U2.guarded_state(st, fn) for st in sts)
+            chk.instance(R2, ok=ok, sample={"entry": fn["name"] + " (template pattern)", "dependent_call": show(n["callee"])[:60]})
+            if not ok:
+                chk.violation("R3.2", "C03/R3.2:%s" % fn["name"].split("<")[0], where(fn, n),
+                              "public member template %s reaches a block reorder / bulk prune (%s) that is not guarded by "
+                              "hasUnknown==false for every instantiation" % (fn["name"], show(n["callee"])[:60]))
+    chk.floor(R2, 5)
 
     # ---------------- R3.3
     for fn in F.fns.values():
@@ -413,10 +456,7 @@ def run(F, chk):
             sizep = [p for p in fn["params"] if "int" in (p.get("ct") or p.get("t"))]
             if not sizep:
                 continue
-            sp = sizep[0]["name"]
-            resized = any(n["k"] == "Call" and n.get("short") == "resize" and show(n.get("recv")) == "data" and
-                          n.get("args") and show(n["args"][0]) == sp for n in walk(fn["body"]))
-            sized = any(n["k"] == "Assign" and show(n["l"]) == "blockSize" and show(n["r"]) == sp for n in walk(fn["body"]))
+            resized, sized = _unknown_ctor_sizes(F, fn, sizep[0]["name"])
             ok = resized and sized
             chk.instance(R4, ok=ok, sample={"ctor": fn["id"], "resize": resized, "blockSize": sized})
             if not ok:
@@ -476,18 +516,33 @@ def run(F, chk):
     # AddOrFindStringId: find loop dominates push_back (an existing string keeps its index)
     add = F.fn1("nifly::NiHeader::AddOrFindStringId")
 
-    class A(flow.Flow):
-        def on_node(self, n, st):
-            if n["k"] == "Return" or st is None:
-                return st
-            return st
+    def _lookup_loop(s_):
+        """a loop over the string table that compares entries and returns on a hit"""
+        return s_["k"] in ("For", "RangeFor", "While") and any(x["k"] == "Return" for x in walk(s_)) and \
+            any(x["k"] in ("OpCall", "Binary") and x.get("op") == "==" for x in walk(s_)) and \
+            any(x["k"] == "Member" and x.get("name") == "strings" for x in walk(s_))
 
-    rets = [n for n in walk(add["body"]) if n["k"] == "Return"]
+    lookup_fns = {f["id"] for f in F.fns.values() if f.get("cls") == HDR and f.get("const") and f.get("body") and
+                  any(_lookup_loop(x) for x in walk(f["body"]))}
     pushes = [n for n in walk(add["body"]) if n["k"] == "Call" and n.get("short") in ("push_back", "emplace_back")
               and _member_root(n.get("recv")) == "strings"]
-    loops = [n for n in walk(add["body"]) if n["k"] in ("For", "RangeFor", "While") and
-             any(r in list(walk(n)) for r in rets)]
-    ok = bool(pushes) and bool(loops) and all(_before(add["body"], loops[0], p) for p in pushes)
+    pids_ = {id(n) for n in pushes}
+
+    class A(flow.Collect):
+        def on_stmt(self, s_, st):
+            if st is not None and _lookup_loop(s_):
+                return st | {("D", "looked-up")}
+            return st
+
+        def on_node(self, n, st):
+            st = super().on_node(n, st)
+            if st is not None and n["k"] == "Call" and n.get("fid") in lookup_fns:
+                return st | {("D", "looked-up")}  # a lookup helper (FindStringId) called before appending
+            return st
+
+    a_ = A(F, add, lambda n: id(n) in pids_)
+    a_.run()
+    ok = bool(pushes) and all(st is None or ("D", "looked-up") in st for _, sts in a_.by_node() for st in sts) and bool(a_.by_node())
     chk.instance(R5, ok=ok, sample={"fn": "AddOrFindStringId", "find_loop_before_append": ok})
     if not ok:
         chk.violation("R3.5", "C03/R3.5:AddOrFindStringId", where(add),
